@@ -164,7 +164,13 @@ def run(ctx):
              ("QLabel { id: t; text: edit.text }", "->t->setText(", "QLineEdit::textChanged"), ("QAction { id: t; enabled: chk.checked }", "->t->setEnabled(", "QAbstractButton::toggled"),
              ("QAction { id: t; text: edit.text }", "->t->setText(", "QLineEdit::textChanged"), ("QSlider { id: t; maximum: spin.value }", "->t->setMaximum(", "QSpinBox::valueChanged"),
              ("QMenu { id: t; title: edit.text }", "->t->setTitle(", "QLineEdit::textChanged"), ("QGroupBox { id: t; title: edit.text; QVBoxLayout { spacing: spin.value } }", "->setSpacing(", "QSpinBox::valueChanged"),
-             ("QTabWidget { id: t; QWidget { id: page; enabled: chk.checked } }", "->page->setEnabled(", "QAbstractButton::toggled"), ("QLabel { id: t; font.pointSize: spin.value }", "->t->setFont(", "QSpinBox::valueChanged")]
+             ("QTabWidget { id: t; QWidget { id: page; enabled: chk.checked } }", "->page->setEnabled(", "QAbstractButton::toggled"), ("QLabel { id: t; font.pointSize: spin.value }", "->t->setFont(", "QSpinBox::valueChanged"),
+             # one grouped value whose members read ONE object through properties announced by DIFFERENT signals (and several objects): every signal is connected
+             ("QAction { id: act; checkable: true }\n  QLabel { id: t; font.bold: act.checked; font.strikeout: !act.enabled }", "->t->setFont(", "QAction::toggled|QAction::changed"),
+             ("QAction { id: act; checkable: true }\n  QLabel { id: t; font.bold: act.checked && act.enabled }", "->t->setFont(", "QAction::toggled|QAction::changed"),
+             ("QLabel { id: t; font { bold: chk.checked; pointSize: spin.value; family: edit.text } }", "->t->setFont(", "QAbstractButton::toggled|QSpinBox::valueChanged|QLineEdit::textChanged"),
+             ("QLabel { id: t; minimumSize { width: spin.value; height: spin.maximum } }", "->t->setMinimumSize(", "QSpinBox::valueChanged"),
+             ("QAction { id: act; checkable: true }\n  QLabel { id: t; text: act.text; enabled: act.checked && act.enabled }", "->t->setEnabled(", "QAction::toggled|QAction::changed")]
     saved = os.environ.get("VERIF_EXTRA_METATYPES", "")
     os.environ["VERIF_EXTRA_METATYPES"] = ""
     kdocs = ["import qmluic.QtWidgets\nQWidget {\n  QSpinBox { id: spin }\n  QLineEdit { id: edit }\n  QCheckBox { id: chk }\n  %s\n}\n" % k for k, _, _ in kinds]
@@ -179,9 +185,10 @@ def run(ctx):
         if r["has_error"] or any(x["kind"] == "error" for x in r["diags"]):
             continue
         h = r.get("header") or ""
-        if setter not in h or signal not in h:
-            ctx.violation("the dynamic binding `%s` is accepted, but the support header has %s: the target never follows what it reads"
-                          % (k, "no call of the setter (%s)" % setter.strip("->(") if setter not in h else "no connection from %s" % signal),
+        missing = [sg for sg in signal.split("|") if sg not in h]
+        if setter not in h or missing:
+            ctx.violation("the dynamic binding `%s` is accepted, but the support header has %s: the target does not follow what it reads"
+                          % (k, "no call of the setter (%s)" % setter.strip("->(") if setter not in h else "no connection from %s" % ", ".join(missing)),
                           {"qml": d, "impl_output": h, "theorem_or_correspondence": "C02_stays_current / S (targets of every kind)"})
     # ---- unobservable reads are rejected
     unobs = [("i", "a.quiet", True), ("i", "a.next != null ? a.next.quiet : 0", True), ("i", "{ let p = a.next; if (p != null) { return p.quiet } return 0 }", True),
